@@ -2,6 +2,7 @@ import RustCcModel.Proofs.CtlSimp
 import RustCcModel.Proofs.InvReach
 import RustCcModel.Proofs.Untouched
 import RustCcModel.Proofs.CycFresh
+import RustCcModel.Proofs.Uninit
 /-! # C14 — `new_cyclic`: Weak dead until initialised; uninitialised data never touched -/
 namespace RustCc.C14
 open World
@@ -101,5 +102,38 @@ theorem under_construction_fields_untouched (c : Cfg) (nH nW nK : Nat) (w : Worl
   have hcf := reachable_cf h
   refine ⟨hcf.fresh k id sp selfw hf, fun g hg e => ?_⟩
   exact hcf.snc g hg id e (mem_cycs_of_frame hf)
+
+/-! ## All memory of a panicked construction is released — every history (`Proofs/Uninit.lean`)
+
+`HistU w D`: a history (any program, scripts, fault plan; running and unwinding steps) ending in `w`, `D` = the boxes whose value
+was handed to `drop_in_place` so far. -/
+
+/-- **A box whose value was never built exists only under its `new_cyclic` call.** In every history: a box that exists but
+does not hold an intact value, and whose value was never handed to `drop_in_place`, belongs to a `new_cyclic` call that is
+still on the stack. -/
+theorem unbuilt_box_only_under_construction (c : Cfg) (nH nW nK : Nat) (w : World) (D : List Id) (h : HistU c nH nW nK w D)
+    (x : Id) (hb : (w.heap x).boxLive = true) (hv : (w.heap x).valLive = false) (hd : x ∉ D) : x ∈ cycs w.stack := by
+  rcases histU_ui c nH nW nK w D h x (by simp [Obj.lv, hb, hv]) with h1 | h1
+  · exact h1
+  · exact absurd h1 hd
+
+/-- **After the closure's panic has left `new_cyclic`, the box is gone**: an identity whose value was never built nor destroyed
+and that no `new_cyclic` call on the stack is constructing has no box — in particular whenever the machine is idle. -/
+theorem panicked_construction_released (c : Cfg) (nH nW nK : Nat) (w : World) (D : List Id) (h : HistU c nH nW nK w D)
+    (x : Id) (hv : (w.heap x).valLive = false) (hd : x ∉ D) (hc : x ∉ cycs w.stack) : (w.heap x).boxLive = false := by
+  cases hb : (w.heap x).boxLive with
+  | false => rfl
+  | true => exact absurd (unbuilt_box_only_under_construction c nH nW nK w D h x hb hv hd) hc
+
+/-- Idle: every box that exists holds an intact value, or its value was handed to `drop_in_place` (a destructor that panicked
+may leak such a box; a `new_cyclic` closure that panicked leaks nothing). -/
+theorem idle_boxes_built_or_destroyed (c : Cfg) (nH nW nK : Nat) (w : World) (D : List Id) (h : HistU c nH nW nK w D)
+    (hs : w.stack = []) (x : Id) (hb : (w.heap x).boxLive = true) : (w.heap x).valLive = true ∨ x ∈ D := by
+  cases hv : (w.heap x).valLive with
+  | true => exact Or.inl rfl
+  | false =>
+    refine Or.inr (Classical.byContradiction fun hd => ?_)
+    have := unbuilt_box_only_under_construction c nH nW nK w D h x hb hv hd
+    rw [hs] at this; simp [cycs] at this
 
 end RustCc.C14
